@@ -15,6 +15,13 @@ CLAIMS = {
          "DESIGN.md §4 C17", TRUST),
 }
 
+CLAIMS["C10"] = ("other", "guard dominance + effect analysis on SSA of the 9 engine action methods and 9 hand-side actions; path enumeration of validator exits; lockset",
+  "Decides structural necessary conditions of C10 on all paths: validation dominates the hand call, every effect is control-dependent on the hand call's success, method/engine-call/label agreement, hand-side validators first and correctly defined. It does not decide whether pokerface allows a wager action for the current player, nor concurrency.",
+  "DESIGN.md §4 C10", TRUST)
+CLAIMS["C13"] = ("other", "error-purity summaries (path enumeration with nil-facts) over the hand methods; repo-specific errcheck for GameBackend calls; call-graph wiring of the error callback; clone-in/clone-out check of the native backend",
+  "Decides on every CFG path that a backend error exit has not touched the hand, that every backend error is returned or routed to the error callback, that the callback is wired to the table error event, and that the native backend never operates on or returns shared state. Remote backends and retry equivalence are not decided.",
+  "DESIGN.md §4 C13", TRUST)
+
 REASONS = {}
 
 checks = []
